@@ -5,7 +5,7 @@ import ast
 import gc
 import typing as T
 
-from ..core import Module, Repo, Undecided, AnchorMissing, norm, short, attr_chain, walk_no_nested, kwarg
+from ..core import Module, Repo, Undecided, AnchorMissing, norm, short, attr_chain, walk_no_nested, kwarg, call_name
 from ..report import Rule, RuleCtx
 from ..cfg import CFG
 from ..flow import Flow
@@ -315,44 +315,101 @@ def _alpha_comprehensions(fn: ast.AST) -> T.Any:
     return R().visit(fn)
 
 
+class _TextSink(T.NamedTuple):
+    qual: str
+    fn: T.Any           # alpha-renamed copy of the function the sink is in
+    raw: Flow
+    cut: Flow
+    kind: str           # 'write' (<param>.write(expr)) | 'return' (value of a method whose result a sink writes)
+    expr: ast.AST
+    node: ast.AST
+
+
+def _r2_text_sinks(ctx: RuleCtx, mod: Module, qual0: str) -> T.List[_TextSink]:
+    """Closed-world reading of "the text NinjaBuildElement.write writes": the arguments of `<param>.write(..)` / `.writelines(..)`
+    in the writer, and - following calls to methods of the same class - (a) the returned values of a method whose call result
+    flows into a sink (phase method that RETURNS the line), (b) the `<param>.write(..)` arguments of a method that is handed one of
+    the caller's parameters (phase method that writes its part itself).  Module-level helpers are not followed: they cannot read
+    self.<set> except through an argument, which is judged at the call site."""
+    out: T.List[_TextSink] = []
+    seen: T.Set[T.Tuple[str, bool]] = set()
+    work: T.List[T.Tuple[Module, str, bool, int]] = [(mod, qual0, False, 0)]
+    while work:
+        m, qual, returns_text, depth = work.pop(0)
+        if m.rel != mod.rel:
+            raise Undecided(f'{qual0}: part of the text is produced by {m.rel}:{qual} (inherited method), which this rule does not read')
+        if (qual, returns_text) in seen or (qual, True) in seen:
+            continue
+        writes_read = (qual, False) in seen
+        seen.add((qual, returns_text))
+        fn = _alpha_comprehensions(m.func(qual))    # engine work-around: sa.flow merges comprehension variables of the same name
+        raw = Flow(fn, nested=False)
+        cut = Flow(fn, cut={'sorted'}, nested=False)
+        mine: T.List[_TextSink] = []
+        for c in walk_no_nested(fn):
+            if isinstance(c, ast.Call) and isinstance(c.func, ast.Attribute) and c.func.attr in ('write', 'writelines') \
+                    and isinstance(c.func.value, ast.Name) and c.func.value.id in raw.params and c.args and not writes_read:
+                mine.append(_TextSink(qual, fn, raw, cut, 'write', c.args[0], c))
+            elif isinstance(c, ast.Return) and c.value is not None and returns_text:
+                mine.append(_TextSink(qual, fn, raw, cut, 'return', c.value, c))
+        out += mine
+        text_origins: T.Set[str] = set()
+        for s in mine:
+            text_origins |= raw.origins(s.expr)
+        for c in walk_no_nested(fn):
+            if not (isinstance(c, ast.Call) and isinstance(c.func, ast.Attribute) and isinstance(c.func.value, ast.Name)
+                    and c.func.value.id in ('self', 'cls')):
+                continue
+            h = _helper_of(ctx, m, qual, c)
+            if h is None or not h[3]:
+                continue
+            feeds_text = f'call:{call_name(c)}' in text_origins
+            hands_file = any(isinstance(a, ast.Name) and a.id in raw.params and a.id not in ('self', 'cls')
+                             for a in list(c.args) + [k.value for k in c.keywords])
+            if not (feeds_text or hands_file):
+                continue
+            if depth >= 3:
+                raise Undecided(f'{qual}: the written text is produced more than three calls deep ({short(c, 50)}), which this rule does not follow')
+            work.append((h[0], h[1], feeds_text, depth + 1))
+    return out
+
+
 def _r2_core(ctx: RuleCtx) -> None:
     mod = ctx.repo.module(NINJA)
     if not mod.has_cls('NinjaBuildElement'):
         raise Undecided(f'{mod.rel}: class NinjaBuildElement not found (renamed or moved?)')
     cls = mod.cls('NinjaBuildElement')
-    fn = _func(mod, 'NinjaBuildElement.write')
+    _func(mod, 'NinjaBuildElement.write')
     table = Resolver(ctx.repo, [NINJA]).attr_table(mod, cls)
     set_attrs = sorted(a for a, t in table.items() if t.kind == 'set')
-    fn = _alpha_comprehensions(fn)    # engine work-around: sa.flow merges comprehension variables of the same name
-    raw = Flow(fn, nested=False)
-    cut = Flow(fn, cut={'sorted'}, nested=False)
-    writes = [c for c in ast.walk(fn) if isinstance(c, ast.Call) and isinstance(c.func, ast.Attribute) and c.func.attr in ('write', 'writelines')
-              and isinstance(c.func.value, ast.Name) and c.func.value.id in raw.params and c.args]
-    if not writes:
+    sinks = _r2_text_sinks(ctx, mod, 'NinjaBuildElement.write')
+    if not any(s.kind == 'write' for s in sinks):
         raise Undecided('NinjaBuildElement.write: no <param>.write(text) call found')
     written = 0
     for a in set_attrs:
         origin = f'attr:self.{a}'
-        reaching = [w for w in writes if origin in raw.origins(w.args[0])]
+        reaching = [s for s in sinks if origin in s.raw.origins(s.expr)]
         if not reaching:
             continue
         written += 1
-        for w in reaching:
-            o = cut.origins(w.args[0])
+        for s in reaching:
+            fn, w = s.fn, s.node
+            o = s.cut.origins(s.expr)
             # the sorted() calls that carry this attribute
             carriers = [c for c in ast.walk(fn) if isinstance(c, ast.Call) and isinstance(c.func, ast.Name) and c.func.id == 'sorted'
-                        and c.args and origin in raw.origins(c.args[0])]
+                        and c.args and origin in s.raw.origins(c.args[0])]
             ok = origin not in o and 'san:sorted' in o and bool(carriers)
             if not ok:
                 # closed world: the unsorted use must be a consumer the K10 classifier reads as order-sensitive; a flow through a helper
                 # or an idiom it cannot classify is not a finding
-                verdicts = {s2.verdict for s2 in _sites(ctx, NINJA) if s2.func == 'NinjaBuildElement.write' and attr_chain(s2.value) == f'self.{a}'}
+                verdicts = {s2.verdict for s2 in _sites(ctx, NINJA) if s2.func == s.qual and attr_chain(s2.value) == f'self.{a}'}
                 if 'violation' not in verdicts:
-                    raise Undecided(f'NinjaBuildElement.write: self.{a} reaches {short(w, 40)} without a sorted() on the way, but no consumer of it is '
+                    raise Undecided(f'{s.qual}: self.{a} reaches {short(w, 40)} without a sorted() on the way, but no consumer of it is '
                                     f'classified as order-sensitive (site verdicts: {sorted(verdicts)})')
             bad_reads = [n for n in ast.walk(fn) if isinstance(n, ast.Attribute) and attr_chain(n) == f'self.{a}'] if not ok else []
-            ctx.require(ok, f'NinjaBuildElement.write: self.{a} (set) reaches `{short(w, 40)}` only through sorted() ({len(carriers)} sorted call(s))',
-                        mod, 'NinjaBuildElement.write', f'self.{a} -> {norm(w.func)}(...)',
+            sink_text = f'{norm(w.func)}(...)' if s.kind == 'write' else 'return (text written by NinjaBuildElement.write)'
+            ctx.require(ok, f'{s.qual}: self.{a} (set) reaches `{short(w, 40)}` only through sorted() ({len(carriers)} sorted call(s))',
+                        mod, s.qual, f'self.{a} -> {sink_text}',
                         f'the set self.{a} flows into the text written by {short(w, 50)} without passing sorted(): the build statement lists it in hash order',
                         bad_reads[0] if bad_reads else w)
     ctx.floor('set-typed attributes written by NinjaBuildElement.write', written, 2)
@@ -1071,6 +1128,45 @@ class _DigestFacts(T.NamedTuple):
     feeder_findings: T.List[T.Tuple[Module, str, str, str, ast.AST]]
 
 
+def _feeder_method_facts(ctx: RuleCtx, sc: SiteScanner, cls: T.Optional[T.Tuple[Module, ast.ClassDef]], xtext: str,
+                         depth: int = 0) -> T.Optional[T.Tuple[T.Set[str], T.Set[str], T.List[str]]]:
+    """What `X.hash(hasher)` feeds: (input chains with self spelled as X, flow origins, calls not understood) read from the `hash`
+    method of X's class - arguments of <hasher param>.update(..) and receivers of nested Y.hash(<hasher param>).  None: not readable."""
+    if cls is None or depth > 2:
+        return None
+    hm = ctx.repo.find_method(cls[0], cls[1], 'hash')
+    if hm is None or len(hm[2].args.args) != 2:
+        return None
+    f2 = hm[2]
+    sname, hp = f2.args.args[0].arg, f2.args.args[1].arg
+    fl2 = Flow(f2, nested=False)
+    inputs: T.Set[str] = set()
+    origins: T.Set[str] = set()
+    opaque: T.List[str] = []
+    fed: T.List[ast.AST] = []
+    for c in walk_no_nested(f2):
+        if not isinstance(c, ast.Call):
+            continue
+        argnames = [attr_chain(a) for a in c.args] + [attr_chain(k.value) for k in c.keywords]
+        if isinstance(c.func, ast.Attribute) and attr_chain(c.func.value) == hp:
+            if c.func.attr == 'update':
+                fed += list(c.args)
+            else:
+                opaque.append(short(c, 50))
+        elif hp in argnames:
+            if isinstance(c.func, ast.Attribute) and c.func.attr == 'hash' and len(c.args) == 1 and attr_chain(c.func.value) is not None:
+                inputs.add(_rename_chain(attr_chain(c.func.value) or '', {sname: xtext}))
+            else:
+                opaque.append(short(c, 50))
+    if any(isinstance(n, ast.Name) and n.id == hp and isinstance(n.ctx, ast.Store) for n in ast.walk(f2)):
+        return None        # the hasher parameter is rebound: not read
+    for e in fed:
+        inputs |= {_rename_chain(x, {sname: xtext}) for x in _resolved_chains(fl2, e)}
+        origins |= {o for o in fl2.origins(e) if not o.startswith('param:')}
+        opaque += _opaque_calls(_expr_closure(fl2, e))
+    return inputs, origins, opaque
+
+
 def _digest_facts(ctx: RuleCtx, sc: T.Optional[SiteScanner], mod: Module, qual: str, fn: T.Any, roots: T.Sequence[ast.AST],
                   depth: int = 0) -> T.Optional[_DigestFacts]:
     """Where the value of `roots` gets its digest from: in this function, or (E1: block extracted into a helper) in a helper of the
@@ -1132,7 +1228,18 @@ def _digest_facts(ctx: RuleCtx, sc: T.Optional[SiteScanner], mod: Module, qual: 
     inputs: T.Set[str] = set()
     origins: T.Set[str] = set()
     helper_calls: T.List[str] = list(opaque_feed)
-    for e, _ in fed:
+    fc0 = sc._fc_chain(mod, fn, qual) if sc is not None else None
+    for e, via_method in fed:
+        if via_method and sc is not None and attr_chain(e) is not None:
+            # X.hash(hasher): what reaches the digest is what the class's feeder method hands to its hasher parameter - fields of X
+            # (the object's own construction is not part of the value, as for an attribute)
+            sub = _feeder_method_facts(ctx, sc, sc.class_of(e, fc0), attr_chain(e) or '')
+            if sub is not None:
+                inputs.add(attr_chain(e) or '')
+                inputs |= sub[0]
+                origins |= sub[1]
+                helper_calls += sub[2]
+                continue
         inputs |= _resolved_chains(fl, e)
         origins |= fl.origins(e)
         helper_calls += _opaque_calls(_expr_closure(fl, e))
